@@ -21,6 +21,7 @@ import (
 	"sort"
 	"strings"
 
+	"github.com/nspcc-dev/neo-go/pkg/config"
 	"github.com/nspcc-dev/neo-go/pkg/core"
 	"github.com/nspcc-dev/neo-go/pkg/core/interop/interopnames"
 	"github.com/nspcc-dev/neo-go/pkg/core/mpt"
@@ -293,7 +294,19 @@ func main() {
 
 func runCase(o *hx.Out, f *hx.Flags, k int, t *tb) {
 	r := prng.ForCase(f.Seed, k)
-	bc, acc := chain.NewSingle(t)
+	// node-local state retention mode: 0 = keep every state (default), 1 = RemoveUntraceableBlocks
+	// (reference-counted MPT with GC flags; all heights of a short chain are still retained),
+	// 2 = KeepOnlyLatestState (reference-counted, only the latest root is readable)
+	stMode := r.Weighted([]int{5, 3, 2})
+	o.Count(fmt.Sprintf("state-mode:%d", stMode))
+	bc, acc := chain.NewSingleWithCustomConfig(t, func(c *config.Blockchain) {
+		switch stMode {
+		case 1:
+			c.Ledger.RemoveUntraceableBlocks = true
+		case 2:
+			c.Ledger.KeepOnlyLatestState = true
+		}
+	})
 	e := neotest.NewExecutor(t, bc, acc, acc)
 	c := buildContract(e.Validator.ScriptHash(), "S")
 	c2 := buildContract(e.Validator.ScriptHash(), "S2")
@@ -453,6 +466,9 @@ func runCase(o *hx.Out, f *hx.Flags, k int, t *tb) {
 		rec := recs[h]
 		if rec == nil {
 			continue
+		}
+		if stMode == 2 && h != top {
+			continue // only the latest state is retained
 		}
 		o.Count("heights-checked")
 		// (1) whole trie = whole storage: nothing missing, nothing extra
@@ -629,7 +645,7 @@ func runCase(o *hx.Out, f *hx.Flags, k int, t *tb) {
 			}
 		}
 		// (3) historic invocations = live invocations at that height
-		if h >= 1 {
+		if h >= 1 && stMode != 2 {
 			for i, rd := range reads {
 				if r.Chance(1, 3) && h != top {
 					continue // sample two thirds on inner heights
